@@ -137,6 +137,7 @@ def run(prop, tier, seed, replay=None):
     with ThreadPoolExecutor(max_workers=min(len(jobs), max(1, vlib.NCPU // 2))) as ex:
         results = list(ex.map(one, jobs))
     deviations = 0
+    hang_tried = 0
     if not replay and results:
         st_ = vlib.binding_selftest("Trace_Traversal", ("Trace_Traversal.cfg", "Trace_Traversal_relaxed.cfg"), results[0][1], corrupt(prop), INV_PROPS)
         cov["binding_selftest"] = st_
@@ -180,6 +181,9 @@ def run(prop, tier, seed, replay=None):
                     log("  note: lookup %s/%s hung (%s); judged by C03" % (h["seed"], h["lookup"], h["what"]))
                     continue
                 # state-based hang rule: must reproduce on 2 more runs of the same schedule
+                if any(x["key"] == "hang" for x in v.violations) or hang_tried >= 2:
+                    continue
+                hang_tried += 1
                 rep = 0
                 for k in range(2):
                     o2 = os.path.join(wd, "rehang-%d.ndjson" % k)
